@@ -41,3 +41,25 @@ Qed.
 
 Theorem C17_age_limit_one_hour : MAX_AGE_NS = 3600000000000%Z.
 Proof. unfold MAX_AGE_NS. rewrite max_age_agrees. reflexivity. Qed.
+
+(** Non-vacuity: a cache directory over capacity with an application dot-file and
+    a sub-directory, and a temp directory holding one stale and one young file.
+    Maintenance unlinks exactly the oldest unread entry and the stale temp file;
+    the dot-file, the sub-directory and the young temp file are never named. *)
+Example C17_example :
+  let mkf (f : fs) (p : path) (m a : Z) :=
+    let '(f1, i) := alloc_inode f (mkInode false [65%N] 292 m a 1 true) in
+    set_names f1 ((p, i) :: names f1) in
+  let mkd (f : fs) (p : path) :=
+    let '(f1, i) := alloc_inode f (mkInode true [] 493 0%Z 0%Z 2 true) in
+    set_names f1 ((p, i) :: names f1) in
+  let f := mkd (mkd (mkd empty_fs ["w"%string]) ["w"; ".kismet_temp"]%string) ["w"; "sub"]%string in
+  let f := mkf (mkf (mkf (mkf f ["w"; "a"]%string 100%Z 50%Z) ["w"; "b"]%string 101%Z 50%Z) ["w"; "c"]%string 102%Z 50%Z) ["w"; ".appdata"]%string 1%Z 1%Z in
+  let now := 10000000000000%Z in
+  let f := mkf (mkf f ["w"; ".kismet_temp"; ".tmpOLD"]%string 5%Z 5%Z) ["w"; ".kismet_temp"; ".tmpNEW"]%string (now - 1000)%Z (now - 1000)%Z in
+  let d := mkCdir ["w"%string] 2 1 in
+  let '(_, _, _, tr) := run (definitely_cleanup d ["w"%string]) (mkWorld f 0 []) (mkOracle [now; now] [] [] [] [] None 0 1%Z Relatime) in
+  (exists s', mon_run (m_step [["w"%string]; ["w"; ".kismet_temp"]%string]) m_init tr = Some s') /\
+  filter (fun ev => match ev with EvCall (CUnlink _) _ => true | _ => false end) tr
+  = [EvCall (CUnlink ["w"; "a"]%string) ROk; EvCall (CUnlink ["w"; ".kismet_temp"; ".tmpOLD"]%string) ROk].
+Proof. vm_compute. split; [eexists; reflexivity|reflexivity]. Qed.
